@@ -29,8 +29,8 @@ RULE = (
     "identify+verify+needs_update; distinct class = hasher|seed#|mode|form|mutation"
 )
 
-SIGMA_QUICK = "$=.0aA+{ \x00é"
-SIGMA_FULL = "$,=./019azAZg+-_{}*!:| \x00\n\x7fé€"
+SIGMA_QUICK = "$=.0aA+{ \x00é\u0664"
+SIGMA_FULL = "$,=./019azAZg+-_{}*!:| \x00\n\x7fé€\u0664\uff11"  # incl. two non-ASCII decimal digits (4, 1)
 PW = "password"
 
 HEX_INSENSITIVE = ("hex_md4", "hex_md5", "hex_sha1", "hex_sha256", "hex_sha512", "lmhash", "nthash", "msdcc", "msdcc2",
